@@ -60,7 +60,10 @@ def childiterOf (k : String) : List (Tree A) → List (Tree A) :=
 
 /-- family `dict`: export with options, re-import of the export, and import of a given dictionary -/
 def runDict (j : Json) : R (Json × Json) := do
-  let t ← atreeOfJson (← getField j "tree")
+  let t0 ← atreeOfJson (← getField j "tree")
+  -- the export may start at any node of the tree (address = child indices from the root)
+  let addr ← (getNatList j "start" <|> pure [])
+  let t := (Tree.sub t0 addr).getD t0
   let m ← getOptInt j "maxlevel"
   let ai ← (getStr j "attriter" <|> pure "none")
   let ci ← (getStr j "childiter" <|> pure "list")
